@@ -1,7 +1,7 @@
 (* Lmmm/Compile.v — the state-offset bookkeeping of mirgen.rs for the λmmm fragment.
    Mirrors (per function context) ContextData{next_state_offset: Option<u64>, push_sum: u64}:
      consume_and_insert_pushoffset, emit_fncall, try_make_delay, make_uniop_intrinsic(MEM),
-     Expr::Feed, Expr::If (arm padding; nso/push_sum NOT saved per arm), the Lambda arm's trailing
+     Expr::Feed, Expr::If (then-cells followed by else-cells; each arm skips the other's cells), the Lambda arm's trailing
      PopStateOffset(push_sum) and ReturnFeed.
    The produced `code` is the expression annotated with the PushStateOffset instructions the real
    compiler emits; `skel`s are the published state skeleton. *)
@@ -19,7 +19,10 @@ Inductive code : Type :=
 | KBin (op : binop) (a b : code)
 | KNeg (a : code)
 | KLet (x : ident) (a b : code)
-| KIf (c t : code) (padt : N) (e : code) (pade : N)     (* pad = PushStateOffset appended to the arm *)
+| KIf (c : code) (push0 : option N) (t : code) (pusht : option N) (padt : N)
+      (e : code) (pushe : option N)
+      (* push0: pending offset flushed before JmpIf; pusht/pushe: flush at the end of each arm;
+         padt: PushStateOffset(else_size) appended to the then arm *)
 | KCall (f : ident) (args : list code) (push : option N) (* push emitted after the args, before Call *)
 | KMem (a : code) (push : option N)
 | KDelay (n : N) (a t : code) (push : option N).
@@ -83,17 +86,18 @@ Section CompileExpr.
     | EIf cnd t e' =>
         match compile_expr cnd c with
         | Some (kc, sc, c1) =>
-            match compile_expr t c1 with
+            (* flush the pending offset before branching; both arms start from (None, ps0) *)
+            let '(push0, (_, ps0)) := consume c1 in
+            match compile_expr t (None, ps0) with
             | Some (kt, st, c2) =>
-                match compile_expr e' c2 with
+                let '(pusht, _) := consume c2 in
+                let ts := skels_size st in
+                (* the else arm owns the cells after the then arm's cells: it starts by skipping them *)
+                match compile_expr e' ((if 0 <? ts then Some ts else None), ps0) with
                 | Some (ke, se, c3) =>
-                    let ts := skels_size st in
+                    let '(pushe, _) := consume c3 in
                     let es := skels_size se in
-                    (* then_size.cmp(&else_size): Greater pads else, Less pads then *)
-                    let padt := if ts <? es then es - ts else 0 in
-                    let pade := if es <? ts then ts - es else 0 in
-                    let branch := if ts <? es then se else st in
-                    Some (KIf kc kt padt ke pade, sc ++ branch, c3)
+                    Some (KIf kc push0 kt pusht es ke pushe, sc ++ st ++ se, (None, ps0 + ts + es))
                 | None => None
                 end
             | None => None
